@@ -13,6 +13,18 @@ Require Import V.base.Fld V.model.LinAlg V.model.Poly V.model.Access V.model.Msp
 Require Import V.proofs.LinAlg_proofs V.proofs.Poly_proofs V.proofs.Span_proofs V.proofs.Msp_proofs
                V.proofs.Families_proofs.
 
+Lemma In_firstn_in : forall {A} (l : list A) n x, In x (firstn n l) -> In x l.
+Proof. intros A l n x H. rewrite <- (firstn_skipn n l). apply in_or_app. now left. Qed.
+
+Lemma In_skipn_in : forall {A} (l : list A) n x, In x (skipn n l) -> In x l.
+Proof. intros A l n x H. rewrite <- (firstn_skipn n l). apply in_or_app. now right. Qed.
+
+Lemma combine_map_l : forall {A B C} (f : A -> C) (l : list A) (m : list B),
+  combine (map f l) m = map (fun p => (f (fst p), snd p)) (combine l m).
+Proof.
+  intros A B C f l; induction l as [|a l IH]; intros [|b m]; try reflexivity. cbn [map combine fst snd]. now rewrite IH.
+Qed.
+
 Section Gate.
 Context {F : Type} (K : fops F) (HK : flaws K) (fromN : N -> F).
 
@@ -216,5 +228,208 @@ Proof.
         apply Hside; auto. apply in_or_app. now right.
     + rewrite app_nth1 by lia. exact Hw0.
 Qed.
+
+
+(* ---- expand / convert_loop in terms of states ------------------------------------------------------------ *)
+
+Fixpoint check_fan (B : nat) (n : tree) : bool :=
+  match n with
+  | Leaf _ => true
+  | Gate _ cs => Nat.ltb (length cs) B && forallb (check_fan B) cs
+  end.
+
+Definition tree_ok (B : nat) (n : tree) : Prop := check_tree n = true /\ check_fan B n = true.
+
+Definition Inv (B d : nat) (M : list (list F)) (L : list tree) : Prop :=
+  length M = length L /\ Forall (fun r => length r = d) M /\ (0 < d)%nat /\ L <> [] /\ Forall (tree_ok B) L.
+
+Lemma find_index_some : forall {A} (f : A -> bool) l z, find_index f l = Some z ->
+  (z < length l)%nat.
+Proof.
+  intros A f l; induction l as [|a l IH]; intros z H; [discriminate|]. cbn [find_index] in H.
+  destruct (f a); [inversion H; cbn; lia|]. destruct (find_index f l) eqn:E; [|discriminate].
+  inversion H; subst. specialize (IH n eq_refl). cbn. lia.
+Qed.
+
+Lemma split_nth : forall {A} (l : list A) z d, (z < length l)%nat ->
+  l = firstn z l ++ nth z l d :: skipn (S z) l.
+Proof.
+  intros A l; induction l as [|a l IH]; intros z d H; [cbn in H; lia|]. destruct z; [reflexivity|].
+  cbn [firstn nth skipn app]. f_equal. apply IH. cbn in H. lia.
+Qed.
+
+Lemma combine_map_r2 : forall {A B C} (f : B -> C) (l : list A) (m : list B),
+  combine l (map f m) = map (fun p => (fst p, f (snd p))) (combine l m).
+Proof.
+  intros A B C f l; induction l as [|a l IH]; intros [|b m]; try reflexivity. cbn [map combine fst snd]. now rewrite IH.
+Qed.
+
+Lemma combine_app2 : forall {A B} (l1 l2 : list A) (m1 m2 : list B), length l1 = length m1 ->
+  combine (l1 ++ l2) (m1 ++ m2) = combine l1 m1 ++ combine l2 m2.
+Proof.
+  intros A B l1; induction l1 as [|a l1 IH]; intros l2 [|b m1] m2 H; cbn in H; try lia; [reflexivity|].
+  cbn [app combine]. f_equal. apply IH. lia.
+Qed.
+
+Lemma combine_kids : forall (f : nat -> list F) (cs : list tree) z,
+  combine cs (map f (seq z (length cs))) = map (fun ic => (snd ic, f (fst ic))) (combine (seq z (length cs)) cs).
+Proof.
+  intros f cs; induction cs as [|c cs IH]; intros z; [reflexivity|]. cbn [length seq map combine fst snd]. now rewrite IH.
+Qed.
+
+Lemma forallb_Forall_ok : forall B cs, forallb check_tree cs = true -> forallb (check_fan B) cs = true ->
+  Forall (tree_ok B) cs.
+Proof.
+  intros B cs H1 H2. apply Forall_forall. intros c Hc. rewrite forallb_forall in H1, H2. split; auto.
+Qed.
+
+(* one expansion in terms of states *)
+Lemma expand_spec : forall B d M L M' L', Inv B d M L -> expand K fromN M L = Some (M', L') ->
+  exists z d2 cs pre post,
+    combine L M = pre ++ (Gate d2 cs, nth z M []) :: post /\
+    combine L' M' = map (padp (pred d2)) pre ++ kids z (nth z M []) d2 cs ++ map (padp (pred d2)) post /\
+    (forall p, In p (pre ++ post) -> length (snd p) = d) /\ length (nth z M []) = d /\
+    (0 < d2)%nat /\ (length cs < B)%nat /\ Inv B (d + pred d2) M' L'.
+Proof.
+  intros B d M L M' L' [HL [HF [Hd [Hne Hok]]]] He. unfold expand in He.
+  destruct (find_index (fun n => negb (is_leaf n)) L) as [z|] eqn:Ez; [|discriminate].
+  pose proof (find_index_some _ L z Ez) as Hz.
+  destruct (nth z L (Leaf 0%N)) as [a|d2 cs] eqn:En; [discriminate|]. inversion He; subst M' L'. clear He.
+  change (match M with [] => [] | _ :: l => skipn z l end) with (skipn (S z) M).
+  change (match L with [] => [] | _ :: l => skipn z l end) with (skipn (S z) L).
+  assert (HzM : (z < length M)%nat) by lia.
+  assert (Hgate_ok : tree_ok B (Gate d2 cs)).
+  { rewrite Forall_forall in Hok. apply Hok. rewrite <- En. now apply nth_In. }
+  destruct Hgate_ok as [Hct Hcf]. cbn [check_tree check_fan] in Hct, Hcf.
+  apply andb_true_iff in Hct. destruct Hct as [Hct Hkids]. apply andb_true_iff in Hct. destruct Hct as [Hct _].
+  apply andb_true_iff in Hct. destruct Hct as [Ht1 Ht2]. apply Nat.ltb_lt in Ht1. apply Nat.leb_le in Ht2.
+  apply andb_true_iff in Hcf. destruct Hcf as [Hfan Hfk]. apply Nat.ltb_lt in Hfan.
+  exists z, d2, cs, (combine (firstn z L) (firstn z M)), (combine (skipn (S z) L) (skipn (S z) M)).
+  assert (Hfl : length (firstn z L) = length (firstn z M)) by (rewrite !firstn_length; lia).
+  rewrite Forall_forall in HF.
+  split; [|split; [|split; [|split; [|split; [|split]]]]].
+  - rewrite (split_nth L z (Leaf 0%N) Hz) at 1. rewrite (split_nth M z [] HzM) at 1.
+    rewrite combine_app2 by auto. cbn [combine]. now rewrite En.
+  - rewrite combine_app2 by (rewrite map_length; auto).
+    rewrite combine_app2 by (now rewrite map_length, seq_length).
+    rewrite combine_kids. rewrite !combine_map_r2. reflexivity.
+  - intros [n r] Hp. cbn [snd]. apply in_app_or in Hp. destruct Hp as [Hp|Hp]; apply in_combine_r in Hp; apply HF.
+    + eapply (In_firstn_in _ _ _ Hp).
+    + eapply (In_skipn_in _ _ _ Hp).
+  - apply HF. now apply nth_In.
+  - exact Ht1.
+  - exact Hfan.
+  - split; [|split; [|split; [|split]]].
+    + rewrite !app_length, !map_length, seq_length.
+      rewrite !firstn_length, !skipn_length. lia.
+    + apply Forall_forall. intros r Hr. apply in_app_or in Hr. destruct Hr as [Hr|Hr]; [|apply in_app_or in Hr; destruct Hr as [Hr|Hr]].
+      * apply in_map_iff in Hr. destruct Hr as [r0 [<- Hr0]]. rewrite app_length, repeat_length.
+        rewrite (HF r0 (In_firstn_in _ _ _ Hr0)). reflexivity.
+      * apply in_map_iff in Hr. destruct Hr as [i [<- _]]. rewrite app_length, (powers_from_length K).
+        rewrite (HF (nth z M [])) by now apply nth_In. reflexivity.
+      * apply in_map_iff in Hr. destruct Hr as [r0 [<- Hr0]]. rewrite app_length, repeat_length.
+        rewrite (HF r0 (In_skipn_in _ _ _ Hr0)). reflexivity.
+    + lia.
+    + destruct cs as [|c cs']; [cbn in Ht2; lia|]. intro E. apply app_eq_nil in E. destruct E as [_ E]. discriminate.
+    + apply Forall_app. split; [|apply Forall_app; split].
+      * apply Forall_forall. intros n Hn. rewrite Forall_forall in Hok. apply Hok. eapply In_firstn_in; eauto.
+      * now apply forallb_Forall_ok.
+      * apply Forall_forall. intros n Hn. rewrite Forall_forall in Hok. apply Hok. eapply In_skipn_in; eauto.
+Qed.
+
+(* ---- the loop ------------------------------------------------------------------------------------------------ *)
+
+Section Loop.
+Variable B : nat.
+Hypothesis Hinj : forall z a b, (a < B)%nat -> (b < B)%nat -> gx z (z + a) = gx z (z + b) -> a = b.
+Hypothesis Hnz : forall z a, (a < B)%nat -> gx z (z + a) <> 0.
+
+Lemma loop_equiv : forall ids fuel d M L M' L', Inv B d M L ->
+  convert_loop K fromN fuel M L = Some (M', L') ->
+  exists d', Inv B d' M' L' /\ (rej ids d' (combine L' M') <-> rej ids d (combine L M)).
+Proof.
+  intros ids fuel; induction fuel as [|fuel IH]; intros d M L M' L' HI Hc; cbn [convert_loop] in Hc.
+  - destruct (expand K fromN M L) as [[M1 L1]|] eqn:E; [discriminate|]. inversion Hc; subst. exists d. tauto.
+  - destruct (expand K fromN M L) as [[M1 L1]|] eqn:E.
+    + destruct (expand_spec B d M L M1 L1 HI E) as [z [d2 [cs [pre [post [E1 [E2 [Hlen [Hrz [Hd2 [Hfan HI1]]]]]]]]]]].
+      destruct (IH _ _ _ _ _ HI1 Hc) as [d' [HI' Heq]]. exists d'. split; [exact HI'|].
+      rewrite Heq, E1, E2.
+      destruct HI as [_ [_ [Hd _]]].
+      apply (step_equiv ids d d2 cs z (nth z M []) pre post Hd Hd2 Hrz Hlen).
+      * intros a b Ha Hb. apply Hinj; lia.
+      * intros a Ha. apply Hnz; lia.
+    + inversion Hc; subst. exists d. tauto.
+Qed.
+
+Lemma leaves_of_all_leaf : forall L, forallb is_leaf L = true -> L = map Leaf (leaf_ids L).
+Proof.
+  induction L as [|n L IH]; intros H; [reflexivity|]. cbn [forallb] in H. apply andb_true_iff in H.
+  destruct H as [H1 H2]. destruct n as [a|t cs]; [|discriminate]. cbn. unfold leaf_ids in IH. now rewrite <- IH.
+Qed.
+
+Theorem gate_exact : forall root m ids,
+  check_tree root = true -> check_fan B root = true ->
+  induced_gate K fromN root = Some m ->
+  (forall id, In id ids -> In id (msp_lab m)) ->
+  accepts K m ids = tree_eval ids root.
+Proof.
+  intros root m ids Hct Hcf Hind Hknown. unfold induced_gate in Hind.
+  destruct (convert_loop K fromN (tree_size root) [[1]] [root]) as [[M L]|] eqn:Ec; [|discriminate].
+  destruct (forallb is_leaf L) eqn:El; [|discriminate].
+  assert (HI0 : Inv B 1 [[1]] [root]).
+  { split; [reflexivity|]. split; [repeat constructor|]. split; [lia|]. split; [discriminate|].
+    constructor; [split; auto|constructor]. }
+  destruct (loop_equiv ids _ 1 _ _ M L HI0 Ec) as [d [[HL [HF [Hd [Hne Hok]]]] Heq]].
+  unfold new_msp in Hind. destruct (_ && _); [|discriminate]. inversion Hind; subst m. clear Hind.
+  set (labs := leaf_ids L) in *.
+  assert (ELL : L = map Leaf labs) by now apply leaves_of_all_leaf.
+  assert (Hll : length labs = length M).
+  { rewrite HL. rewrite ELL at 1. now rewrite map_length. }
+  set (rl := combine labs M).
+  assert (Hz : mk_msp M labs = zmsp rl).
+  { unfold zmsp, rl. f_equal; [now rewrite map_snd_combine|now rewrite map_fst_combine]. }
+  rewrite Hz in *.
+  assert (Hwf : wf_msp (zmsp rl)).
+  { rewrite <- Hz. exists (length M), d. cbn [msp_M msp_lab]. split; [split; auto|]. split; [auto|]. split; [auto|].
+    rewrite HL. destruct L; [congruence|cbn; lia]. }
+  assert (HD : msp_D (zmsp rl) = d).
+  { rewrite <- Hz. unfold msp_D. cbn [msp_M]. apply (ncols_wf (length M) d M); [split; auto|].
+    rewrite HL. destruct L; [congruence|cbn; lia]. }
+  (* rejection by the final state is rejection by the MSP *)
+  assert (Hfinal : rej ids d (combine L M) <->
+            exists w, length w = d /\ (forall id v, In (id, v) rl -> In id ids -> dot K v w = 0) /\ nth 0 w 0 = 1).
+  { rewrite ELL. unfold rej, rl. split; intros [w [Hw [Hk Hw0]]]; exists w; (split; [exact Hw|split; [|exact Hw0]]).
+    - intros id v Hin Hid. apply (Hk (Leaf id, v)).
+      + rewrite combine_map_l. apply in_map_iff. exists (id, v). auto.
+      + cbn [fst tree_eval]. now apply memN_In.
+    - intros [n v] Hin Ht. rewrite combine_map_l in Hin. apply in_map_iff in Hin.
+      destruct Hin as [[id v'] [E Hin]]. cbn [fst snd] in E. injection E as En Ev. subst n v. cbn [fst snd tree_eval] in *.
+      apply (Hk id v'); auto. now apply memN_In. }
+  (* rejection by the initial state is falsity of the tree *)
+  assert (Hinit : rej ids 1 (combine [root] [[1]]) <-> tree_eval ids root = false).
+  { cbn [combine]. split.
+    - intros [w [Hw [Hk Hw0]]]. destruct (tree_eval ids root) eqn:Et; [|reflexivity]. exfalso.
+      specialize (Hk (root, [1]) (or_introl eq_refl) Et). cbn [snd] in Hk.
+      destruct w as [|w0 [|? ?]]; cbn in Hw; try lia. cbn [nth] in Hw0. subst w0.
+      rewrite (dot_cons K HK), (dot_nil_l K) in Hk. apply (f1_neq_0 K HK). rewrite <- Hk. ring.
+    - intros Hf. exists [1]. split; [reflexivity|]. split; [|reflexivity].
+      intros p [<-|[]] Ht. cbn [fst] in Ht. congruence. }
+  destruct ids as [|id0 ids0].
+  { (* no IDs: the MSP rejects; so does the tree *)
+    rewrite accepts_nil. symmetry. apply Hinit. apply Heq. apply Hfinal.
+    exists (unit_vec K d 0). split; [apply unit_vec_length|]. split; [intros id v _ []|].
+    rewrite (nth_unit_vec K). assert (E : Nat.ltb 0 d = true) by (apply Nat.ltb_lt; lia). now rewrite E. }
+  remember (id0 :: ids0) as ids eqn:Eids.
+  assert (Hne' : ids <> []) by (rewrite Eids; discriminate).
+  assert (Hknown' : forall id, In id ids -> In id (map fst rl)).
+  { intros id Hid. change (map fst rl) with (msp_lab (zmsp rl)). now apply Hknown. }
+  pose proof (rejects_zipped_iff K HK rl ids Hwf Hne' Hknown') as Hiff. rewrite HD in Hiff.
+  destruct (tree_eval ids root) eqn:Et.
+  - destruct (accepts K (zmsp rl) ids) eqn:Ea; [reflexivity|]. exfalso.
+    assert (Hx : true = false) by (apply Hinit, Heq, Hfinal, Hiff; reflexivity). discriminate.
+  - apply Hiff, Hfinal, Heq, Hinit. reflexivity.
+Qed.
+
+End Loop.
 
 End Gate.
